@@ -241,6 +241,7 @@ func (fc *FuncCtx) evalSelector(st *State, x *ast.SelectorExpr) Term {
 		fc.fail(x, "method value %s", exprStr(x))
 	}
 	base := fc.eval(st, x.X)
+	fc.lockCheck(st, x, "R", x)
 	return fc.selectPath(st, base, sel, x)
 }
 
